@@ -75,7 +75,106 @@ pub fn scenario(g: &mut Gen) -> Scenario {
     Scenario { main, partials, data }
 }
 
+/// The text after the last `marker` of a successful render.
+fn after<'a>(o: &'a Obs, marker: &str) -> Option<&'a str> {
+    match o {
+        Obs::Ok(s) => s.rfind(marker).map(|i| &s[i + marker.len()..]),
+        _ => None,
+    }
+}
+fn between<'a>(o: &'a Obs, open: &str, close: &str) -> Option<&'a str> {
+    match o {
+        Obs::Ok(s) => {
+            let i = s.find(open)? + open.len();
+            let j = s.rfind(close)?;
+            if i <= j { Some(&s[i..j]) } else { None }
+        }
+        _ => None,
+    }
+}
+
+/// Metamorphic streams that state the property on the implementation alone (no model needed):
+///  * ISOLATION: `pre; [render …]; tail` and `pre; tail` print the same caller-visible variables
+///    (partials here do not touch counters, which are shared on purpose);
+///  * ARGS-ONLY: the text a `render` writes is the same from two different callers when the
+///    arguments are literals.
+fn metamorphic(ctx: &mut Ctx) {
+    let n = if ctx.tier_thorough { 60_000 } else { 3_000 };
+    let mut g = Gen::new(ctx.seed ^ 0x15_0C08);
+    const TAIL: &str = "\u{27e6}T\u{27e7}";
+    const OPEN: &str = "\u{27e6}R\u{27e7}";
+    const CLOSE: &str = "\u{27e6}/R\u{27e7}";
+    for _ in 0..n {
+        g.allow_errors = false;
+        g.no_counters = true;
+        g.guarded = true;
+        g.allow_partials = true;
+        g.dynamic_names = false;
+        // partials p1..pk, each may call the earlier ones
+        let np = 1 + g.rng.below(3);
+        let mut partials: Vec<PartialDef> = Vec::new();
+        let mut avail: Vec<String> = Vec::new();
+        for i in 0..np {
+            let name = format!("p{}", i + 1);
+            g.partials = avail.clone();
+            let body = g.body(if i == 0 { 1 } else { 2 }, 4);
+            partials.push((name.clone(), Ok(body)));
+            avail.push(name);
+        }
+        let callee = avail.last().unwrap().clone();
+        // literal arguments only, so that the two callers pass the same values
+        let nargs = g.rng.below(3);
+        let args: Vec<(String, Expr)> = (0..nargs).map(|_| (g.name(), Expr::Lit(g.scalar()))).collect();
+        let form = match g.rng.below(4) {
+            0 => RForm::With(Expr::Lit(g.scalar()), g.name()),
+            1 => RForm::For(RangeE::Counted(lit_i(1), lit_i(g.rng.range(0, 3))), g.name()),
+            _ => RForm::Plain,
+        };
+        let call = Node::Render(lit_s(&callee), form, args);
+        g.allow_partials = false;
+        g.partials = vec![];
+        let pre1 = g.body(2, 4);
+        let pre2 = g.body(2, 4);
+        g.no_counters = false;
+        g.guarded = false;
+        let data = g.data();
+        let parser = build_parser(&partials, Policy::Eager);
+        let mut t_tail = vec![text(TAIL)];
+        t_tail.extend(tail());
+        let with_call = |pre: &Vec<Node>| -> Vec<Node> {
+            let mut t = pre.clone();
+            t.push(text(OPEN));
+            t.push(call.clone());
+            t.push(text(CLOSE));
+            t.extend(t_tail.clone());
+            t
+        };
+        let a = with_call(&pre1);
+        let mut b = pre1.clone();
+        b.extend(t_tail.clone());
+        let c = with_call(&pre2);
+        let oa = render_text(&parser, &src_tmpl(&a), &data);
+        let ob = render_text(&parser, &src_tmpl(&b), &data);
+        let oc = render_text(&parser, &src_tmpl(&c), &data);
+        let mut kind = "meta".to_string();
+        if let (Some(x), Some(y)) = (after(&oa, TAIL), after(&ob, TAIL)) {
+            if x != y {
+                kind = "ISOLATION".into();
+            }
+        }
+        if kind == "meta" {
+            if let (Some(x), Some(y)) = (between(&oa, OPEN, CLOSE), between(&oc, OPEN, CLOSE)) {
+                if x != y {
+                    kind = "ARGS-ONLY".into();
+                }
+            }
+        }
+        ctx.emit(render_case("c08", &kind, &a, &data, &partials, &oa));
+    }
+}
+
 pub fn run(ctx: &mut Ctx) {
+    metamorphic(ctx);
     let n = if ctx.tier_thorough { 300_000 } else { 10_000 };
     let mut g = Gen::new(ctx.seed ^ 0xC08);
     for i in 0..n {
